@@ -16,6 +16,7 @@ import SshuttleModel.Lemmas.FwRulesNat
 import SshuttleModel.Lemmas.FwRulesNft
 import SshuttleModel.Lemmas.FwRulesPf
 import SshuttleModel.Lemmas.FwRulesTproxy
+import SshuttleModel.Lemmas.FwRulesCompose
 
 namespace Sshuttle.Fw
 
@@ -69,17 +70,19 @@ theorem C03_last_match_sorted_asc (subs : List Subnet) (p : Pkt)
 
 /-- **C03 for the nat method.**  For every `setup_firewall` call of a supported family whose
 entries are well-formed and of that family (what `firewall.main` passes), and every packet of
-that family with a non-local destination that does not already carry sshuttle's mark: the
-rules installed by nat divert it to the DNS port iff it is UDP/53 to a listed name server,
-to the proxy port iff it is TCP and its most specific matching entry is an include, and
-leave it alone otherwise; with `--user` or `--group` only locally generated packets of that owner
-are eligible.  Every address, port, protocol, origin and owner is covered (no enumeration). -/
+that family that does not already carry sshuttle's mark: the rules installed by nat divert it to
+the DNS port iff it is UDP/53 to a listed name server, to the proxy port iff it is TCP and its
+most specific matching entry is an include, and leave it alone otherwise; with `--user` or
+`--group` only locally generated packets of that owner are eligible.  Every address, port,
+protocol, origin and owner is covered (no enumeration).  The statement holds for local
+destinations as well: nat's `--dst-type LOCAL` RETURN is the last rule of the chain and
+therefore changes no verdict (see `C03_nat_local_destination_can_be_diverted`). -/
 theorem C03_nat (c : Call) (p : Pkt)
     (hfam : c.family = AF_INET ∨ c.family = AF_INET6) (hp : p.fam6 = isV6 c.family)
     (hwf : ∀ s ∈ c.subnets, Spec.WfEntry s ∧ s.fam = c.family)
-    (hnl : p.dstLocal = false) (hmark : p.mark ≠ some (toString c.port)) :
+    (hmark : p.mark ≠ some (toString c.port)) :
     verdictNat (load (natCmds c)) p = Spec.expectedCall c true false p :=
-  nat_verdict c p hfam hp hwf hnl hmark
+  nat_verdict c p hfam hp hwf hmark
 
 /-- The hypotheses of `C03_nat` are satisfiable by a non-trivial call (overlapping entries
 with ports, a name server, an owner restriction), and the verdict is a diversion. -/
@@ -92,7 +95,7 @@ example :
     let p : Pkt := { fam6 := false, dst := 167838211, dport := 443, proto := .tcp, loc := true,
                      dstLocal := false, uid := "alice" }
     (c.family = AF_INET ∨ c.family = AF_INET6) ∧ p.fam6 = isV6 c.family ∧
-    (∀ s ∈ c.subnets, Spec.WfEntry s ∧ s.fam = c.family) ∧ p.dstLocal = false ∧
+    (∀ s ∈ c.subnets, Spec.WfEntry s ∧ s.fam = c.family) ∧ p.mark ≠ some (toString c.port) ∧
     Spec.expectedCall c true false p = .divert 12300 := by
   decide
 
@@ -320,5 +323,154 @@ theorem C03_tproxy_chains_agree (c : Call) (call call' : ChainName → Option St
 theorem C03_tproxy_setup (c : Call) :
     tproxySetup c = if c.family ≠ AF_INET ∧ c.family ≠ AF_INET6 then .exc "family"
                     else .ok (tproxyCmds c) := rfl
+
+/-! ## 6. Local destinations (nat, nft; tproxy is `C03_tproxy_local_destination`) -/
+
+/-- nft, packet to one of the host's own addresses (`fib daddr type local return` sits right
+after the DNS rules): only DNS to a listed name server of the table's family is taken. -/
+theorem C03_nft_local_destination (c : Call) (p : Pkt) (mark : Option String)
+    (hfam : c.family = AF_INET ∨ c.family = AF_INET6) (hl : p.dstLocal = true) :
+    (walkChain (load (nftCmds c)) (.nft (isV6 c.family) c.port) p walkFuel
+        (if p.loc then .nftOutput else .nftPrerouting) mark).verdict =
+      if p.fam6 = isV6 c.family ∧ Spec.isDnsToNs c.nslist p = true then .divert c.dnsport
+      else .untouched :=
+  nft_table_local c p mark hfam hl
+
+/-- The corresponding statement is **false for nat**: its LOCAL rule comes after the subnet
+rules, so a TCP connection to one of the host's own addresses that lies inside an include IS
+redirected to the proxy (witness: include `0.0.0.0/0`, local destination 192.168.1.10).  The
+property speaks about non-local destinations only, so this is behaviour, not a violation; the
+client protects its own listener with an automatic exclude (C15). -/
+theorem C03_nat_local_destination_can_be_diverted :
+    ¬ (∀ (c : Call) (p : Pkt), (c.family = AF_INET ∨ c.family = AF_INET6) → p.fam6 = isV6 c.family →
+        (∀ s ∈ c.subnets, Spec.WfEntry s ∧ s.fam = c.family) → p.mark ≠ some (toString c.port) →
+        p.dstLocal = true → p.proto = .tcp → verdictNat (load (natCmds c)) p = .untouched) := by
+  intro h
+  let c : Call := { port := 12300, dnsport := 12299, nslist := [], family := 2,
+                    subnets := [⟨2, 0, false, "0.0.0.0", 0, 0, 0⟩],
+                    udp := false, user := none, group := none, tmark := "0x01" }
+  let p : Pkt := { fam6 := false, dst := 3232235786, dport := 22, proto := .tcp, loc := true,
+                   dstLocal := true }
+  have h1 := h c p (by decide) (by decide) (by decide) (by decide) rfl rfl
+  rw [nat_verdict c p (by decide) (by decide) (by decide) (by decide)] at h1
+  revert h1
+  decide
+
+/-! ## 7. The two calls of `firewall.main` compose -/
+
+/-- **nat, whole plan.**  `firewall.main` calls `setup_firewall` for IPv6 and then for IPv4 (each
+only if that family has entries or name servers).  For every plan with well-formed entries and
+every packet of EITHER family, the rule state after both calls gives the verdict of the property
+evaluated on the whole plan: the calls do not disturb each other (iptables vs ip6tables), an
+inactive family is left alone. -/
+theorem C03_nat_plan (pl : Plan) (p : Pkt) (hwf : ∀ s ∈ pl.subnets, Spec.WfEntry s)
+    (hmark : p.mark ≠ some (toString (if p.fam6 then pl.portV6 else pl.portV4))) :
+    verdictNat (load (pl.cmds natCmds)) p = Spec.expected pl true false p :=
+  nat_plan_verdict pl p hwf hmark
+
+/-- **nft, whole plan**: the two `inet` tables `sshuttle-ipv6-P6` and `sshuttle-ipv4-P4` both see
+every packet; together they give the property's verdict for either family. -/
+theorem C03_nft_plan (pl : Plan) (p : Pkt) (hwf : ∀ s ∈ pl.subnets, Spec.WfEntry s)
+    (hnl : p.dstLocal = false) :
+    verdictNft (load (pl.cmds nftCmds)) pl.portV6 pl.portV4 p = Spec.expected pl false false p :=
+  nft_plan_verdict pl p hwf hnl
+
+/-- **tproxy, whole plan** (partial only in the known-finding class, as `C03_tproxy_partial`). -/
+theorem C03_tproxy_plan_partial (pl : Plan) (p : Pkt) (hwf : ∀ s ∈ pl.subnets, Spec.WfEntry s)
+    (hnl : p.dstLocal = false) (hsock : p.hasSocket = false) (hmark : p.mark ≠ some pl.tmark)
+    (hs : Mask32Safe (pl.call p.fam6) p) :
+    verdictTproxy (load (pl.cmds tproxyCmds)) p = Spec.expected pl false pl.udp p :=
+  tproxy_plan_verdict pl p hwf hnl hsock hmark hs
+
+/-- **pf, whole plan**: the anchors `sshuttle6-P6` and `sshuttle-P4` together (the main ruleset
+evaluates both for every packet). -/
+theorem C03_pf_plan (os : PfOs) (pl : Plan) (p : Pkt) (hwf : ∀ s ∈ pl.subnets, Spec.WfEntry s)
+    (hsrc : p.srcLo = false) :
+    verdictPf os (pl.cmds (pfCmds os)) p = Spec.expected pl false false p :=
+  pf_plan_verdict os pl p hwf hsrc
+
+/-- A plan with both families active, an IPv6 packet and an IPv4 packet, both diverted to their
+family's port: the hypotheses of the plan theorems are satisfiable non-trivially. -/
+example :
+    let pl : Plan := { subnets := [⟨2, 8, false, "10.0.0.0", 167772160, 0, 0⟩,
+                                   ⟨10, 0, false, "::", 0, 443, 443⟩,
+                                   ⟨2, 16, true, "10.1.0.0", 167837696, 0, 0⟩],
+                       nslist := [⟨10, "fd00::53", 336294682933583715844663186250927177811⟩],
+                       portV6 := 12300, portV4 := 12299, dnsportV6 := 12298, dnsportV4 := 12297,
+                       udp := false, user := none, group := none, tmark := "0x01" }
+    (∀ s ∈ pl.subnets, Spec.WfEntry s) ∧ pl.active true = true ∧ pl.active false = true ∧
+    Spec.expected pl true false
+      { fam6 := true, dst := 42, dport := 443, proto := .tcp, loc := true, dstLocal := false } = .divert 12300 ∧
+    Spec.expected pl true false
+      { fam6 := false, dst := 167903232, dport := 22, proto := .tcp, loc := false, dstLocal := false } = .divert 12299 ∧
+    Spec.expected pl true false
+      { fam6 := false, dst := 167837697, dport := 22, proto := .tcp, loc := false, dstLocal := false } = .untouched := by
+  decide
+
+/-! ## 8. Set-up on top of a stale rule state -/
+
+/-- **nft, stale table.**  From ANY rule state `rs0` — in particular one in which a killed earlier
+session left the table `sshuttle-ipv{4,6}-PORT` behind with arbitrary old rules in the per-port
+chain and stale jumps in its hook chains — the set-up flushes and refills the per-port chain, so
+the verdicts are those of the NEW call.  (This is what the seeded changes M-C03-E / M-C03-K
+break: without `flush chain` on the per-port chain the stale rules stay in front.) -/
+theorem C03_nft_stale_state (c : Call) (rs0 : Ruleset) (p : Pkt) (mark : Option String)
+    (hfam : c.family = AF_INET ∨ c.family = AF_INET6)
+    (hwf : ∀ s ∈ c.subnets, Spec.WfEntry s ∧ s.fam = c.family) (hnl : p.dstLocal = false)
+    (hold : ∀ b, b = ChainName.nftOutput ∨ b = ChainName.nftPrerouting →
+      ∀ r ∈ rs0.get ⟨.nft (isV6 c.family) c.port, b⟩, r = ⟨{}, .jump (.nft (isV6 c.family) c.port)⟩) :
+    (walkChain ((nftCmds c).foldl applyCmd rs0) (.nft (isV6 c.family) c.port) p walkFuel
+        (if p.loc then .nftOutput else .nftPrerouting) mark).verdict =
+      if p.fam6 = isV6 c.family then Spec.expectedCall c false false p else .untouched :=
+  nft_stale_verdict c rs0 p mark hfam hwf hnl hold
+
+/-- nft set-up writes only its own table: every chain of every other table (other ports, the
+other family, iptables, foreign rules) is exactly what it was. -/
+theorem C03_nft_setup_leaves_other_tables (c : Call) (rs0 : Ruleset) (k : ChainKey)
+    (hk : k.sp ≠ .nft (isV6 c.family) c.port) :
+    ((nftCmds c).foldl applyCmd rs0).get k = rs0.get k :=
+  (nft_setup_from c rs0).2.2.2 k hk
+
+/-- **nat, stale chains.**  From ANY rule state in which killed sessions with the same port and
+owner restriction left arbitrary old rules in `sshuttle-PORT` and stale copies of the jump rules
+(nat OUTPUT / PREROUTING) and of the owner MARK rule (mangle OUTPUT): after `-F sshuttle-PORT`,
+the `-I … 1` jumps and the new `-A` rules, the verdicts are those of the NEW call.  (The real
+set-up first runs `restore_firewall`, which only deletes from these objects — C04 —, so the
+states it leaves are among the states quantified over here.) -/
+theorem C03_nat_stale_state (c : Call) (rs0 : Ruleset) (p : Pkt)
+    (hfam : c.family = AF_INET ∨ c.family = AF_INET6) (hp : p.fam6 = isV6 c.family)
+    (hwf : ∀ s ∈ c.subnets, Spec.WfEntry s ∧ s.fam = c.family)
+    (hmark : p.mark ≠ some (toString c.port))
+    (hout : ∀ r ∈ rs0.get ⟨.ipt (isV6 c.family) .nat, .output⟩, r = natJumpRule c)
+    (hpre : ∀ r ∈ rs0.get ⟨.ipt (isV6 c.family) .nat, .prerouting⟩, r = natJumpRule c)
+    (hman : ∀ r ∈ rs0.get ⟨.ipt (isV6 c.family) .mangle, .output⟩, r = natOwnerRule c) :
+    verdictNat ((natCmds c).foldl applyCmd rs0) p = Spec.expectedCall c true false p :=
+  nat_stale_verdict c rs0 p hfam hp hwf hmark hout hpre hman
+
+/-- nat set-up writes only `sshuttle-PORT`, nat OUTPUT, nat PREROUTING and mangle OUTPUT of its
+own family's binary (new rules in front of what was there); every other chain is what it was. -/
+theorem C03_nat_setup_touches_only_own_chains (c : Call) (rs0 : Ruleset) (k : ChainKey)
+    (h1 : k ≠ ⟨.ipt (isV6 c.family) .nat, .nat c.port⟩) (h2 : k ≠ ⟨.ipt (isV6 c.family) .nat, .output⟩)
+    (h3 : k ≠ ⟨.ipt (isV6 c.family) .nat, .prerouting⟩)
+    (h4 : k ≠ ⟨.ipt (isV6 c.family) .mangle, .output⟩) :
+    ((natCmds c).foldl applyCmd rs0).get k = rs0.get k :=
+  (nat_setup_from c rs0).2.2.2.2 k h1 h2 h3 h4
+
+/-- The hypotheses of the stale-state theorems hold for a state in which a killed session left an
+include-everything rule in the per-port chain and a stale jump. -/
+example :
+    let c : Call := { port := 12300, dnsport := 12299, nslist := [], family := 2,
+                      subnets := [⟨2, 16, true, "10.1.0.0", 167837696, 0, 0⟩],
+                      udp := false, user := none, group := none, tmark := "0x01" }
+    let rs0 : Ruleset :=
+      [(⟨.nft false 12300, .nft false 12300⟩,
+          [nftSubnetRule false 12300 ⟨2, 0, false, "0.0.0.0", 0, 0, 0⟩]),
+       (⟨.nft false 12300, .nftOutput⟩, [⟨{}, .jump (.nft false 12300)⟩])]
+    (∀ b, b = ChainName.nftOutput ∨ b = ChainName.nftPrerouting →
+      ∀ r ∈ rs0.get ⟨.nft (isV6 c.family) c.port, b⟩, r = ⟨{}, .jump (.nft (isV6 c.family) c.port)⟩) ∧
+    rs0.get ⟨.nft false 12300, .nft false 12300⟩ ≠ [] := by
+  refine ⟨?_, by decide⟩
+  intro b hb
+  rcases hb with rfl | rfl <;> decide
 
 end Sshuttle.Fw
